@@ -557,6 +557,23 @@ def expand(fn, g, use_node_id, expr, depth=0, keep=()):
     txt = _re.sub(r"\s", "", expr.src)
     if depth > 4:
         return {txt}
+    # a conditional expression stands for either branch (the condition is not tracked): expand both alternatives, where the
+    # text of the whole expression is re-assembled with the chosen branch in place of the `c ? a : b`
+    conds = [x for x in expr.walk() if x.kind == "ConditionalOperator"]
+    if conds and depth < 3:
+        c0 = conds[0]
+        ctext = _re.sub(r"\s", "", c0.src)
+        if ctext in txt:
+            out = set()
+            for br in (c0.children[1], c0.children[2]):
+                for sub in expand(fn, g, use_node_id, br, depth + 1, keep):
+                    alt = txt.replace(ctext, "(" + sub + ")", 1)
+                    # remaining names of the surrounding expression are expanded on the text level below
+                    out.add(alt)
+            res = set()
+            for alt in out:
+                res |= _expand_text(fn, g, use_node_id, expr, alt, depth, keep)
+            return res
     names = []
     for x in expr.walk():
         if x.kind == "DeclRefExpr" and x.refkind == "VarDecl" and x.ref not in names:
@@ -571,6 +588,33 @@ def expand(fn, g, use_node_id, expr, depth=0, keep=()):
             continue
         new = set()
         for t in results:
+            for rhs in rds:
+                for sub in expand(fn, g, use_node_id, rhs, depth + 1, keep):
+                    new.add(_re.sub(r"(?<![A-Za-z0-9_>.])%s(?![A-Za-z0-9_])" % _re.escape(v), "(" + sub + ")", t))
+        results = new or results
+    return results
+
+
+def _expand_text(fn, g, use_node_id, expr, txt, depth, keep):
+    """the name-substitution step of expand() applied to an already assembled text"""
+    import re as _re
+    names = []
+    for x in expr.walk():
+        if x.kind == "DeclRefExpr" and x.refkind == "VarDecl" and x.ref not in names:
+            names.append(x.ref)
+    results = {txt}
+    counters = {p for p, n, rhs, k in stores(fn) if p and k in ("++", "--", "+=", "-=")}
+    for v in names:
+        if v in counters or v in keep:
+            continue
+        rds = reaching_defs(fn, g, use_node_id, v)
+        if not rds:
+            continue
+        new = set()
+        for t in results:
+            if not _re.search(r"(?<![A-Za-z0-9_>.])%s(?![A-Za-z0-9_])" % _re.escape(v), t):
+                new.add(t)
+                continue
             for rhs in rds:
                 for sub in expand(fn, g, use_node_id, rhs, depth + 1, keep):
                     new.add(_re.sub(r"(?<![A-Za-z0-9_>.])%s(?![A-Za-z0-9_])" % _re.escape(v), "(" + sub + ")", t))
@@ -667,3 +711,50 @@ def linform(e):
     if p is not None:
         return {p: 1}
     return None
+
+
+def nonzero_reach(g, starts, seeds):
+    """Nodes reachable from `starts` when the variables in `seeds` are known to be non-zero: plain copies `x = v` of a non-zero
+    variable are non-zero too, any other store forgets the fact, and condition nodes that test a known non-zero variable
+    (`x`, `x != 0`, `x == 0`) only follow their feasible edge."""
+    seen = set()
+    work = [(s_, frozenset(seeds)) for s_ in starts]
+    out = set()
+    while work:
+        nid, nz = work.pop()
+        if (nid, nz) in seen:
+            continue
+        seen.add((nid, nz))
+        out.add(nid)
+        n = g.nodes[nid]
+        nz2 = set(nz)
+        feasible = None
+        if n.ast is not None and n.kind == "stmt":
+            for path, node, rhs, kind in stores(n.ast):
+                if path is None:
+                    continue
+                if kind == "=" and rhs is not None and rhs.strip(casts=True).path() in nz2:
+                    nz2.add(path)
+                elif kind == "=" and rhs is not None and rhs.intval() not in (None, 0):
+                    nz2.add(path)
+                else:
+                    nz2.discard(path)
+            for d in ([n.ast] if n.ast.kind == "DeclStmt" else []):
+                for v in d.children:
+                    if v.kind == "VarDecl" and v.children:
+                        iv = v.children[-1].strip(casts=True)
+                        if iv.path() in nz2 or (iv.intval() not in (None, 0)):
+                            nz2.add(v.name)
+                        else:
+                            nz2.discard(v.name)
+        if n.kind == "cond" and n.ast is not None:
+            e = n.ast.strip(casts=True)
+            if e.path() in nz2:
+                feasible = "T"
+            elif e.kind == "BinaryOperator" and e.opcode in ("!=", "==") and e.children[1].intval() == 0 and e.children[0].path() in nz2:
+                feasible = "T" if e.opcode == "!=" else "F"
+        for b, lab in g.succ[nid]:
+            if feasible is not None and lab in ("T", "F") and lab != feasible:
+                continue
+            work.append((b, frozenset(nz2)))
+    return out
